@@ -53,8 +53,8 @@ Proof. revert i. induction l as [|a r IH]; intros i; cbn; [reflexivity|]. now re
 Section WithSpec.
 Variable G : spec.
 
-Lemma field_children_map {A B} (g : A -> B) t kids fl f :
-  field_children G t (mapkids g kids) fl f = map (on2 g) (field_children G t kids fl f).
+Lemma field_children_map {A B} (g : A -> B) t kids fl s f :
+  field_children G t (mapkids g kids) fl s f = map (on2 g) (field_children G t kids fl s f).
 Proof.
   unfold field_children. destruct (fdesc_of G t f); [|reflexivity].
   rewrite kids_of_map. apply tag_elems_map.
